@@ -3,7 +3,7 @@
 # /repo itself (which background sweeps rebuild from) is never touched. Usage: seed_matrix_scratch.sh '<glob>' [check]
 set -u
 only="${1:-*}"; with="${2:-}"
-S=/tmp/scratch
+S=${S:-/tmp/scratch}
 if [ ! -d $S/repo ]; then mkdir -p $S; git -C /repo worktree add -q --detach $S/repo HEAD; fi
 git -C $S/repo checkout -q --detach $(git -C /repo rev-parse HEAD); git -C $S/repo checkout -q -- .
 rsync -a --exclude target /verif/sim/ $S/sim/ ; sed -i "s#/repo/crates#$S/repo/crates#g" $S/sim/Cargo.toml
